@@ -53,6 +53,7 @@ package node
 //@   requires nsm != nil && nsMetasOK(nsm) && kvNodesOK(nsm)
 //@   ensures result1 == nil ==> in(nsBaseName, nsm.nsMetas)
 //@   ensures result1 == nil ==> result0 == nsm.kvNodes[nsDesp(nsBaseName, int(murmur3sum(pk)) % nsm.nsMetas[nsBaseName].PartitionNum)]
+//@   ensures result1 == nil ==> in(nsDesp(nsBaseName, int(murmur3sum(pk)) % nsm.nsMetas[nsBaseName].PartitionNum), nsm.kvNodes)
 
 //@ property C19
 
@@ -489,3 +490,16 @@ package node
 //@ func (nd *KVNode) existsCommand(cmd redcon.Command) (interface{}, error)
 //@   requires nd != nil && nd.store != nil && len(cmd.Args) >= 1
 //@   modifies *
+
+// accessors used by the server's per-partition regrouping of multi-key commands (C15): read-only
+//@ property C15
+//@ spec nnName(nn *NamespaceNode) string
+//@ func (nn *NamespaceNode) FullName() string
+//@   trusted returns nn.conf.Name; the configuration of a running partition is never nil
+//@   ensures result == nnName(nn)
+//@ func (nd *KVNode) GetMergeHandler(cmd string) (common.MergeCommandFunc, bool, bool)
+//@   trusted router lookup, read-only
+//@ func (nd *KVNode) IsStopping() bool
+//@   trusted atomic load, read-only
+//@ func (nd *KVNode) IsLead() bool
+//@   trusted atomic load, read-only
